@@ -9,6 +9,67 @@ fn h(k: u8, hv: u32) -> Hashed<u8> {
     Hashed::new_unchecked(StarlarkHashValue::new_unchecked(hv), k)
 }
 
+pub fn vec2_case(case: &J) -> J {
+    use starlark_map::vec2::Vec2;
+    let mut v: Vec2<u8, u16> = Vec2::new();
+    let mut model: Vec<(u8, u16)> = Vec::new();
+    for op in case["ops"].as_array().cloned().unwrap_or_default() {
+        let name = op["op"].as_str().unwrap_or("");
+        let a = op["a"].as_u64().unwrap_or(0) as u8;
+        let b = op["b"].as_u64().unwrap_or(0) as u16;
+        let i = op["i"].as_u64().unwrap_or(0) as usize;
+        match name {
+            "push" => {
+                v.push(a, b);
+                model.push((a, b));
+            }
+            "pop" => {
+                let r = v.pop();
+                let mr = model.pop();
+                if r != mr {
+                    return json!({"mismatch": format!("Vec2::pop returned {:?}, model {:?}", r, mr)});
+                }
+            }
+            "remove" => {
+                if i >= model.len() {
+                    return json!({"machinery_error": "remove out of range"});
+                }
+                let r = v.remove(i);
+                let mr = model.remove(i);
+                if r != mr {
+                    return json!({"mismatch": format!("Vec2::remove({}) returned {:?}, model {:?}", i, r, mr)});
+                }
+            }
+            "truncate" => {
+                v.truncate(i);
+                model.truncate(i);
+            }
+            "clear" => {
+                v.clear();
+                model.clear();
+            }
+            "sort" => {
+                v.sort_by(|x, y| x.0.cmp(y.0));
+                model.sort_by(|x, y| x.0.cmp(&y.0));
+            }
+            _ => return json!({"machinery_error": format!("unknown vec2 op {name}")}),
+        }
+        if v.len() != model.len() {
+            return json!({"mismatch": format!("Vec2 len {} vs model {} after {}", v.len(), model.len(), name)});
+        }
+        for (j, e) in model.iter().enumerate() {
+            if v.get(j) != Some((&e.0, &e.1)) {
+                return json!({"mismatch": format!("Vec2::get({}) = {:?}, model {:?} after {}", j, v.get(j), e, name)});
+            }
+        }
+        let it: Vec<(u8, u16)> = v.iter().map(|(a, b)| (*a, *b)).collect();
+        if it != model {
+            return json!({"mismatch": format!("Vec2 iteration {:?} vs model {:?} after {}", it, model, name)});
+        }
+    }
+    json!({"ok": model.len()})
+}
+
 pub fn map_case(case: &J) -> J {
     let mut m: SmallMap<u8, u8> = match case["capacity"].as_u64() {
         Some(c) => SmallMap::with_capacity(c as usize),
